@@ -505,3 +505,14 @@ func init() {
 		return &OpaqueBytes{length: l, tok: -1}
 	}
 }
+
+func init() {
+	rf := func(p *Path, fr *frame, a []Value) Value {
+		ts := p.e.ts
+		x := p.newFPInput("rand.float")
+		p.assumeQuiet(ts.And(ts.FPCmp("fp.geq", x, ts.FP(64, 0)), ts.FPCmp("fp.lt", x, ts.FP(64, 1))))
+		return x
+	}
+	externals["math/rand.Float64"] = rf
+	externals["(*math/rand.Rand).Float64"] = rf
+}
